@@ -90,8 +90,10 @@ def tight(rt, values, any_ok=False, path="$", stats=None):
             return None
         return (path, "Iterator not witnessed by a generator object")
     if k == "td":
-        conts = [v for v in values if type(v) is dict and member(v, rt)]
-        if not conts:
+        # every dict observed at this position counts (under a union the caller has already kept the values this alternative admits):
+        # a key is required only if EVERY observed dict here has it
+        conts = [v for v in values if type(v) is dict]
+        if not conts or not any(member(v, rt) for v in conts):
             return (path, "TypedDict has no dict witness")
         for name, t in sorted(rt[1]):
             if not all(name in c for c in conts):
